@@ -75,6 +75,11 @@ class Cutter(ast.NodeTransformer):
 
     def visit_Call(self, node):
         self.generic_visit(node)
+        if (self.route and isinstance(node.func, ast.Attribute) and node.func.attr == "join" and len(node.args) == 1
+                and not node.keywords and not isinstance(node.func.value, ast.Attribute)):
+            # sep.join(items): str.join/bytes.join are C methods that reject proxies
+            self.log.append("line %d: .join(...) -> _pyvc_join(sep, items)" % node.lineno)
+            return ast.copy_location(ast.Call(func=ast.Name(id="_pyvc_join", ctx=ast.Load()), args=[node.func.value, node.args[0]], keywords=[]), node)
         if self.route and isinstance(node.func, ast.Name) and node.func.id in ROUTED:
             self.log.append("line %d: %s(...) -> %s(...)" % (node.lineno, node.func.id, ROUTED[node.func.id]))
             node.func = ast.Name(id=ROUTED[node.func.id], ctx=ast.Load())
@@ -509,7 +514,23 @@ def p_percent(fmt, args):
     return out if out is not None else (b"" if is_b else "")
 
 
-HELPERS = {"_pyvc_fstr": p_fstr, "_pyvc_percent": p_percent, "_pyvc_len": p_len, "_pyvc_isinstance": p_isinstance, "_pyvc_int": p_int,
+def p_join(sep, items):
+    if not isinstance(sep, (str, bytes, bytearray, SStr)):
+        return sep.join(items)          # os.path.join-like or other objects: untouched
+    items = list(items)
+    if not isinstance(sep, SStr) and not any(isinstance(x, Proxy) for x in items):
+        return sep.join(items)
+    out = None
+    for k, x in enumerate(items):
+        if k:
+            out = out + sep
+        out = x if out is None else out + x
+    if out is None:
+        return sep[:0] if not isinstance(sep, SStr) else (b"" if sep.is_bytes else "")
+    return out
+
+
+HELPERS = {"_pyvc_join": p_join, "_pyvc_fstr": p_fstr, "_pyvc_percent": p_percent, "_pyvc_len": p_len, "_pyvc_isinstance": p_isinstance, "_pyvc_int": p_int,
            "_pyvc_min": p_min, "_pyvc_max": p_max, "_pyvc_bool": p_bool, "_pyvc_str": p_str,
            "_pyvc_abs": p_abs, "_pyvc_bytes": p_bytes, "_pyvc_range": p_range,
            "_pyvc_newdict": lambda name: {}, "_pyvc_newlist": lambda name: []}
@@ -679,7 +700,7 @@ def _routed(fn):
     new = None
     try:
         src = inspect.getsource(fn)
-        if any(("%s(" % b) in src for b in ROUTED) or 'f"' in src or "f'" in src or '" %' in src or "' %" in src:
+        if any(("%s(" % b) in src for b in ROUTED) or ".join(" in src or 'f"' in src or "f'" in src or '" %' in src or "' %" in src:
             new, _ = rewrite_function(fn, (), route=True)
     except (Exception, core.Unsupported):      # anything that cannot be recompiled stays as it is
         new = None
